@@ -18,7 +18,7 @@ def tlc_mc(module, cfg, work, workers=4, timeout=1500, simulate=None, want_repla
            '-noGenerateSpecTE', '-nowarning', '-config', os.path.join(R.SPEC, cfg)]
     if simulate:
         cmd += ['-simulate', simulate[0], '-depth', str(simulate[1])]
-    elif module not in ('MC_Writer', 'MC_Codec', 'MC_Robust'):
+    elif module not in ('MC_Writer', 'MC_Codec', 'MC_Robust', 'MC_Utf8'):
         # (coverage bookkeeping exhausts the heap on the models that embed the 886-entry error table)
         cmd += ['-coverage', '1']
     cmd += [os.path.join(R.SPEC, module + '.tla')]
@@ -60,7 +60,7 @@ def models_for(pid, tier):
     M = {
         'C01': [('MC_Reader', 'MC_Reader_deep.cfg' if deep else 'MC_Reader.cfg', 'pass'), ('MC_Reader', 'MC_Reader_trunc.cfg', 'pass'),
                 ('MC_Reader', 'MCdev_Reader_nodrain.cfg', 'fail'), ('MC_Reader', 'MCdev_Reader_stale.cfg', 'fail')],
-        'C02': [('MC_Robust', 'MC_Robust.cfg', 'pass'), ('MC_Flow', 'MC_Flow.cfg', 'pass')],
+        'C02': [('MC_Robust', 'MC_Robust.cfg', 'pass'), ('MC_Flow', 'MC_Flow.cfg', 'pass'), ('MC_Utf8', 'MC_Utf8.cfg', 'pass')],
         'C03': [('MC_Writer', 'MC_Writer_deep.cfg' if deep else 'MC_Writer.cfg', 'pass'), ('MC_Writer', 'MCdev_Writer_more.cfg', 'fail'),
                 ('MC_Writer', 'MCdev_Writer_eof0.cfg', 'fail')],
         'C04': [('MC_Framer', 'MC_Framer_deep.cfg' if deep else 'MC_Framer.cfg', 'pass'), ('MC_Framer', 'MC_Framer_p5.cfg', 'pass'),
